@@ -650,7 +650,11 @@ where
         }
         for v in vs {
             if seen.insert(v.signature.clone()) {
-                rep.violate(&v.signature, format!("{} [deviations from the default schedule: {:?}]", v.what, v.deviations), json!({"engine": "e2", "property": prop, "cell": lab, "deviations": v.deviations}));
+                if v.signature.starts_with("machinery:") {
+                    rep.machinery(format!("{} {} [{}]", v.signature, v.what, lab));
+                } else {
+                    rep.violate(&v.signature, format!("{} [deviations from the default schedule: {:?}]", v.what, v.deviations), json!({"engine": "e2", "property": prop, "cell": lab, "deviations": v.deviations}));
+                }
             }
         }
     }
